@@ -112,7 +112,6 @@ func serve(r *req) (out resp) {
 	defer func() {
 		out.Log = logbuf.String()
 		log.SetOutput(os.Stderr)
-		out.Cached, out.ErrLatched = analyzer.VerifLatch()
 	}()
 	switch r.Op {
 	case "registered":
